@@ -8,6 +8,7 @@ import WindVerif.Drv.Generic
 import WindVerif.Drv.LineFile
 import WindVerif.Drv.Records
 import WindVerif.Drv.TmpPool
+import WindVerif.Drv.Pool
 open WindVerif.Drv
 
 def machines : List (String × Machine) := [
@@ -24,7 +25,8 @@ def machines : List (String × Machine) := [
   ("generic", genericMachine),
   ("linefile", linefileMachine),
   ("records", recordsMachine),
-  ("tmppool", tmppoolMachine)
+  ("tmppool", tmppoolMachine),
+  ("pool", poolMachine)
 ]
 
 def main (args : List String) : IO UInt32 := do
